@@ -53,11 +53,12 @@ type Prog struct {
 	Fixtures map[string]*ssa.Package
 	Fix      *Prog
 
-	declCache map[*types.Func]*ast.FuncDecl
-	allWT     *WriteThrough // write-through facts over all repository functions (built on first use)
-	NormLog   []string      // what the source normalisation inlined (or declined to)
-	nsDone   bool
-	nsWrites []newStateWrite
+	declCache   map[*types.Func]*ast.FuncDecl
+	allWT       *WriteThrough // write-through facts over all repository functions (built on first use)
+	NormLog     []string      // what the source normalisation inlined (or declined to)
+	nsDone      bool
+	nsWrites    []newStateWrite
+	constTables map[*ssa.Global]*ConstTable // robust_c07.go: package-level variables proved to be constant tables
 }
 
 func loadEnv() []string {
